@@ -563,11 +563,11 @@ fn grid() -> Vec<Case> {
 }
 
 pub fn run(args: &Args, rec: &mut Recorder) {
-    rec.rule = "evaluation = one check() call on a module holding one element (MEASUREMENT, CHARACTERISTIC via FNC_VALUES, AXIS_PTS via AXIS_PTS_X, STD_AXIS AXIS_DESCR via AXIS_PTS_X, TYPEDEF_MEASUREMENT) of one of the 11 data types with one conversion and limits placed clearly inside / outside-low / outside-high of the range computed by an independent calculator; the LimitCheckError verdict must match. The grid is enumerated completely in both tiers; quick adds 100 000 and thorough 5 000 000 random coefficient draws (magnitudes 1e-6..1e6, both signs). distinct_nontrivial = distinct (host, type, conversion, placement) tuples".into();
+    rec.rule = "evaluation = one check() call on a module holding one element (MEASUREMENT, CHARACTERISTIC via FNC_VALUES, AXIS_PTS via AXIS_PTS_X, STD_AXIS AXIS_DESCR via AXIS_PTS_X, TYPEDEF_MEASUREMENT) of one of the 11 data types with one conversion and limits placed clearly inside / outside-low / outside-high of the range computed by an independent calculator; the LimitCheckError verdict must match. The grid is enumerated completely in both tiers; quick adds 400 000 and thorough 5 000 000 random coefficient draws (magnitudes 1e-6..1e6, both signs). distinct_nontrivial = distinct (host, type, conversion, placement) tuples".into();
     rec.assumptions.push("'clearly' outside = by 1 % of max(range width, |limit|), i.e. 10^4 times the documented 1e-6 relative tolerance; limits exactly at the range are not judged; 'near' placements are outside by 100 x the documented tolerance of the same side (any amount if that limit is 0); 'tol' placements are outside by 1 % of the documented tolerance (1e-8 relative to the limit of that side; none if that limit is 0 or the conversion cancels more than four digits) and must not be reported; ranges that are not finite in f64 have no outside placement".into());
     let cases = grid();
     let n_grid = cases.len() as u64;
-    let n_rand: u64 = if args.thorough { 5_000_000 } else { 100_000 };
+    let n_rand: u64 = if args.thorough { 5_000_000 } else { 400_000 };
     if args.shard == 0 {
         rec.extra.insert("grid_cases".into(), Json::UInt(n_grid));
         rec.extra.insert("exhaustive".into(), Json::Bool(n_rand == 0));
